@@ -12,7 +12,7 @@ import (
 )
 
 type GhostInst struct {
-	Name   string   // SMT function name
+	Name   string // SMT function name
 	Params []Sort
 	Ret    Sort
 	RetT   types.Type
